@@ -2,7 +2,7 @@
 Spec: server/AcceptDispatch.tla with commands, injected accept errors, back-off deadlines, TCP and UDS listeners."""
 import srvflow
 
-INV = ["T_C05_PausedNoDispatch", "T_C05_UdsReachable", "T_C05_ListenerLive"]
+INV = ["T_C05_PausedNoDispatch", "T_C05_UdsReachable", "T_C05_ListenerLive", "T_C05_BackoffExpires"]
 DESIGN = ["MC_cmd_quick.cfg", "MC_cmd_c3.cfg"]
 EDGES = ["MC_cmd_quick.cfg"]
 THOROUGH = ["MC_cmd_2l.cfg", "MC_cmd_w2.cfg", "MC_cmd_fault.cfg"]
